@@ -57,6 +57,10 @@ def gen_cases(rng, thorough):
         cases.append(gen_found_on_search_path_case(rng))
     for _ in range(45 * scale):
         cases.append(gen_include_graph(rng))
+    for _ in range(24 * scale):
+        cases.append(gen_error_after_nested(rng))
+    s(L.QUALS + 'class TST_A { [Key] string k; };\nclass TST_B : TST_A { uint8 b; };\nclass TST_A : TST_B { uint8 a; };\n'
+      'instance of TST_A { k = "x"; };', 'superclass_cycle_by_redefinition')
     for _ in range(200 * scale):
         cases.append(gen_repo_case(rng))
     cases.extend(exhaustive_repo_cases())
@@ -189,6 +193,23 @@ def gen_found_on_search_path_case(rng):
         main = rng.choice(['nodir/F_Extra.mof', 'f_extra.mof', 'F_Extra.MOF'])
     return {'kind': 'files', 'files': files, 'main': main, 'search': ['sp'], 'via': 'file' if main != 'main.mof' else
             rng.choice(['file', 'string']), 'handle': rng.choice(['plain', 'plain', 'mock']), 'tag': 'files:found_on_sp'}
+
+
+def gen_error_after_nested(rng):
+    """a MOF STRING (no file) in which a statement that is fine makes the compiler compile another file (absolute include
+    path, or a superclass / referenced class found on the search path) and a LATER statement has an error: the error
+    must be reported for the string (file None), at a line of the string"""
+    pad = ''.join(rng.choice(['\n', '// c\n', '   \n']) for _ in range(rng.choice([0, 1, 3, 8])))
+    files = {'sp/F_Base.mof': pad + 'class F_Base { [Key] string k; uint8 b; };\n' + pad,
+             'inc.mof': 'class F_Inc { uint8 i; };\n' + pad}
+    first = rng.choice(['class F_D : F_Base { uint8 d; };', '#pragma include ("%DIR%/inc.mof")',
+                        'class F_R { F_Base REF r; };', '#pragma include ("%DIR%/inc.mof")\nclass F_D : F_Base { uint8 d; };'])
+    bad = rng.choice(['class F_Broken { uint8 oops oops; };', 'class F_Broken { uint8 p = @; };', 'instance of F_Nope { p = 1; };',
+                      'class F_Broken { uint8 p = 300; };', rng.choice(L.NEAR_MISS), 'class F_Broken {', '#pragma namespace ("a:b")'])
+    text = ('// a string\n' if rng.random() < 0.5 else '') + L.QUALS + first + '\n' + \
+        ''.join(rng.choice(['\n', '  \n', '// x\n', '/* y\n */\n']) for _ in range(rng.choice([0, 1, 2, 5, 9]))) + bad + '\n'
+    return {'kind': 'files', 'files': files, 'text': text, 'search': ['sp'], 'via': 'purestring',
+            'handle': rng.choice(['plain', 'plain', 'mock']), 'tag': 'files:error_after_nested'}
 
 
 def gen_include_graph(rng):
@@ -412,11 +433,23 @@ def run_one(case, comp_plain, stub, comp_stub, wd, classify=True):
     elif kind == 'files':
         d = wd.case_dir(case['files'])
         search = [os.path.join(d, x) for x in case['search']]
-        main = os.path.join(d, case['main'])
+        main = os.path.join(d, case.get('main', 'main.mof'))
         for name in case['files']:
             with open(os.path.join(d, name), encoding='utf-8') as f:
                 texts[os.path.join(d, name)] = f.read()
-        if case.get('handle') == 'mock':
+        if case['via'] == 'purestring':
+            # a MOF STRING (no file name) whose statements pull in files: absolute include path / search path
+            text = case['text'].replace('%DIR%', d)
+            texts[None] = text
+            if case.get('handle') == 'mock':
+                import pywbem_mock
+                conn = pywbem_mock.FakedWBEMConnection()
+                comp = None
+                obs['out'] = L.outcome_of(lambda: conn.compile_mof_string(text, search_paths=search))
+            else:
+                comp = L.new_compiler(search_paths=search)
+                obs['out'] = L.outcome_of(lambda: comp.compile_string(text, None))
+        elif case.get('handle') == 'mock':
             import pywbem_mock
             conn = pywbem_mock.FakedWBEMConnection()
             comp = None
@@ -481,12 +514,17 @@ def run_one(case, comp_plain, stub, comp_stub, wd, classify=True):
         ns2 = 'c09/g%d' % wd.n
         o2 = L.outcome_of(lambda: comp.compile_file(wd.good_file(), ns2))
         handle = stub.inner if kind == 'repo' else comp.handle
-        if not o2.get('ok'):
+        ref = L.good_reference(wd)
+        if ref is None:
+            obs['reuse'] = None          # the known-good MOF fails even on a fresh compiler: reported once per batch
+        elif not o2.get('ok'):
             obs['reuse'] = {'exc': o2.get('exc'), 'site': o2.get('site')}
-        elif L.repo_snapshot(handle, ns2) != L.good_reference(wd):
-            obs['reuse'] = {'differs': True}
         else:
-            obs['reuse'] = None
+            try:
+                same = L.repo_snapshot(handle, ns2) == ref
+            except Exception as e:      # noqa
+                same = False
+            obs['reuse'] = None if same else {'differs': True}
     return obs
 
 
@@ -495,14 +533,31 @@ def worker(batch):
     common.use_repo()
     wd = _workdir()
     L.good_reference(wd)
-    comp_plain = L.new_compiler()
-    stub = L.make_stub()
-    comp_stub = L.new_compiler(handle=stub)
+    try:
+        comp_plain = L.new_compiler()
+        stub = L.make_stub()
+        comp_stub = L.new_compiler(handle=stub)
+    except Exception as e:       # noqa: the compiler cannot even be constructed
+        site, raiser, rfile, via = L.site_of(e)
+        out = {'exc': type(e).__name__, 'site': site or 'MOFCompiler', 'raiser': raiser, 'rfile': rfile, 'via_handle': via}
+        wd.close()
+        _W.clear()
+        return [{'out': dict(out), 'cause': 'other'} for _ in batch]
     res = []
     for i, case in enumerate(batch):
-        obs = run_one(case, comp_plain, stub, comp_stub, wd)
+        try:
+            obs = run_one(case, comp_plain, stub, comp_stub, wd)
+        except Exception as e:       # noqa: a call into the code under test outside the outcome capture
+            site, raiser, rfile, via = L.site_of(e)
+            obs = {'out': {'exc': type(e).__name__, 'site': site, 'raiser': raiser, 'rfile': rfile, 'via_handle': via,
+                           'uncaptured': True}, 'cause': 'other'}
+        if i == 0 and L._REF.get('fail'):
+            obs['good_failed'] = L._REF['fail']
         if case['kind'] in ('string', 'mock', 'mockcomp') and len(case['mof']) <= 6000:
-            obs['toks'] = real_tokens(comp_plain, case['mof'])
+            try:
+                obs['toks'] = real_tokens(comp_plain, case['mof'])
+            except Exception:     # noqa
+                pass
         bad = (not obs['out'].get('ok') and not obs['out'].get('mof')) or obs.get('pos') or obs.get('reuse')
         if bad:
             # does it reproduce on fresh compiler objects (no history)?
@@ -532,10 +587,10 @@ def judge(case, obs):
     v = []
     api = {'string': 'compile_string', 'files': 'compile_file', 'repo': 'compile_string', 'mock': 'compile_mof_string',
            'mockcomp': 'compile_string'}[case['kind']]
-    if case['kind'] == 'files' and case.get('via') == 'string':
+    if case['kind'] == 'files' and case.get('via') in ('string', 'purestring'):
         api = 'compile_string'
     if case['kind'] == 'files' and case.get('handle') == 'mock':
-        api = 'compile_mof_' + case['via']
+        api = 'compile_mof_' + ('string' if case['via'] == 'purestring' else case['via'])
     if out.get('timeout'):
         v.append(({'kind': 'timeout', 'api': api}, out))
     elif out.get('ok'):
@@ -639,6 +694,14 @@ def run(run):
             run.count('site:' + str(out.get('site')))
         for sig, observed in judge(case, obs):
             run.violate(sig, case_for_replay(case, obs), observed)
+        if obs.get('good_failed'):
+            g = obs['good_failed']
+            gcase = {'kind': 'good'}
+            if g.get('mof'):
+                run.violate({'kind': 'good_mof_rejected', 'exc': g.get('exc'), 'site': g.get('site')}, gcase, g)
+            else:
+                run.violate({'kind': 'leak', 'exc': g.get('exc'), 'site': g.get('site'), 'cause': 'other', 'api': 'compile_file'},
+                            gcase, {k: g.get(k) for k in ('exc', 'site', 'raiser', 'rfile')})
 
     # ---- K 1: lexer
     k_lexer(run, cases, observations)
@@ -1072,6 +1135,12 @@ def replay(payload):
         r = real_positions(case['mof'], [case['pos']])[0]
         return ('exc' not in r), 'position functions on %r at %d: %r' % (case['mof'], case['pos'], r)
     wd = _workdir()
+    if case.get('kind') == 'good':
+        out = L.outcome_of(lambda: L.new_compiler().compile_file(wd.good_file(), 'c09/ref'))
+        wd.close()
+        _W.clear()
+        return bool(out.get('ok')), 'the known-good MOF file (c09lib.GOOD + include) on a fresh compiler -> %s' % json.dumps(
+            {k: out.get(k) for k in ('ok', 'exc', 'site', 'raiser', 'lineno', 'column')})
     st = L.make_stub()
     cp, cs = L.new_compiler(), L.new_compiler(handle=st)
     for h in case.get('history', []):
